@@ -196,6 +196,12 @@ def run_case(case, rec, mon=None):
                     U.read_signal(p, dt, None, "sph")
                 else:
                     f = io.BytesIO(blob)
+                    if case["idx"] % 3 == 1:
+                        # an unbuffered stream whose read(n) may legitimately return fewer than n bytes (a pipe, a socket):
+                        # never fewer than a header block at a time here
+                        f = _ShortReads(blob, int(rng.choice([5000, 8191, 16383, 20001])))
+                        info["access"] = "stream_short_reads"
+                        rec.count("streams_with_short_reads")
                     mon.register(f, expected=want, warn=warn, info=info)
                     U.read_signal(f, dtype=dt, force_as="sph")
             except Exception:
@@ -266,6 +272,23 @@ def run_case(case, rec, mon=None):
         monitor.report(rec)
         sanit.uninstall([_sphere])
         monitor.detach_all()
+
+
+class _ShortReads(io.RawIOBase):
+    """a readable raw stream over `data` that hands out at most `k` bytes per read"""
+
+    def __init__(self, data, k):
+        super().__init__()
+        self._b = io.BytesIO(data)
+        self._k = k
+
+    def readable(self):
+        return True
+
+    def readinto(self, buf):
+        d = self._b.read(min(len(buf), self._k))
+        buf[:len(d)] = d
+        return len(d)
 
 
 def make_spec(seed, idx):
